@@ -223,6 +223,7 @@ func init() {
 			r.Require("registration_history_requests", 1000)
 			wls = append(wls, core.Workload{Name: "concurrent_first_use", N: c.Pick(300, 1500), Fn: c16ConcurrentFirstUse})
 			r.Require("concurrent_first_requests", 20000)
+			wls = append(wls, core.Workload{Name: "tenants_overlapping", N: c.Pick(30, 300), Fn: func(r *core.Run, idx int, rng *rand.Rand) { tenantOverlap(r, "tenants_overlapping", idx, rng) }})
 			return wls
 		},
 	})
